@@ -77,24 +77,31 @@ Theorem C38_read_prefix_determined : forall s r n, read_frame s = Ok (r, n) ->
   | _ => forall t, read_frame (firstn (N.to_nat n) s ++ t) = Ok (r, n) end.
 Proof. exact read_prefix_determined. Qed.
 
+(* Read succeeds exactly on streams that begin with a complete header block declaring n followed by
+   n bytes; on every other (malformed, truncated) stream it returns an error -- never a message *)
+Theorem C38_read_success_iff : forall s, (exists p n, read_frame s = Ok (RPayload p, n)) <-> well_framed s.
+Proof. exact read_success_iff. Qed.
+Theorem C38_malformed_error : forall s, ~ well_framed s -> exists e n, read_frame s = Ok (RErr e, n) /\ n <= nlen s.
+Proof. exact malformed_error. Qed.
+
 (* a read that is not the clean EOF makes progress *)
 Theorem C38_read_progress : forall s r n, read_frame s = Ok (r, n) -> n = 0 -> r = RErr EEOF /\ s = [].
 Proof. exact read_progress. Qed.
 
 (* K-gen: the literals of x/jsonrpc2/frame.go as it is now (Gen/C38.v is regenerated on every run):
-   header name, line delimiter, name separator, ParseInt base and bit size, the two tests of `length`;
+   header name, line delimiter, name separator, ParseInt base and bit size, the integer tests (total == 0, colon < 0, length <= 0, length == 0);
    and write_frame is the rendering of the writer's own format string *)
 Theorem C38_source_reader :
   reader_header_names = [[content_length]]
   /\ reader_line_delim = LF /\ reader_name_sep = COLON
   /\ reader_parseint_base = 10%Z /\ reader_parseint_bits = 32%Z
-  /\ reader_length_tests = [src [60;61;48]; src [61;61;48]]
+  /\ reader_int_tests = [src [61;61;48]; src [60;48]; src [60;61;48]; src [61;61;48]]
   /\ reader_trimspace_calls = 2%Z.
 Proof. exact reader_tables. Qed.
 Theorem C38_source_writer_format : forall p,
   match fmt_apply writer_format [FDec (nlen p)] with Some h => h ++ p = write_frame p | None => False end.
 Proof. exact write_frame_is_source_format. Qed.
-Theorem C38_source_writer_args : writer_format_args = [src [108;101;110;40;100;97;116;97;41]].
+Theorem C38_source_writer_args : writer_format_args = [src [108;101;110;40;95;41]].
 Proof. exact writer_args. Qed.
 
 (* non-vacuity *)
@@ -129,6 +136,8 @@ Print Assumptions C38_read_error_consumption_bounded.
 Print Assumptions C38_read_never_past_declared.
 Print Assumptions C38_read_prefix_determined.
 Print Assumptions C38_read_progress.
+Print Assumptions C38_read_success_iff.
+Print Assumptions C38_malformed_error.
 Print Assumptions C38_source_reader.
 Print Assumptions C38_source_writer_format.
 Print Assumptions C38_source_writer_args.
